@@ -6,7 +6,12 @@ A scenario names a base document and one variant of it:
        {"kind": "hand", "tspec", "doc"}       an abstract document written by hand (Java float literals, sofa URI / byte array)
   var  presentation knobs of the deliberately dumb writer harness/xmlabs.py write (element order incl. sofa / view anywhere
        and forward references, fresh prefix names, shuffled attributes, pretty / compact, empty views omitted, <a/> versus
-       <a></a>) and content rewrites the format allows (Java-style float literals, null references as id 0 / absent).
+       <a></a>) and content rewrites the format allows (Java-style float literals, null references as id 0 / absent,
+       an empty view written as a View element without a members attribute / with a blank one).
+  src["foreign"] + sc["lenient"]   the document of a writer with a richer type system: elements of types the reader's type
+       system does not define (own attributes, nested child elements, optionally listed as view members) are added to
+       the base document; such a document is loaded with lenient=True, base and variant alike.  What it says is what
+       the document without those elements says, wherever they stand.
 The bytes of the variant are loaded with load_cas_from_xmi; the observation is scen.canon of the result (own traversal).
 In Coq the observation is compared with the model reader (XmiLoad.load_xmi + canon_loaded) and with the declarative
 denotation XmiDoc.denote_xmi of the VARIANT document; the oracle compares it with the observation for the base document.
@@ -20,12 +25,15 @@ from harness import scen, xmlabs
 from harness.gallina import glist, gstr
 
 ID = "C05"
-COQ_TARGETS = ["XmiLoad.vo", "XmiLoadProofs.vo", "XmiLoadProofs2.vo", "XmiLoadProofs3.vo", "CorrC05.vo",
+COQ_TARGETS = ["XmiLoad.vo", "XmiLoadProofs.vo", "XmiLoadProofs2.vo", "XmiLoadProofs3.vo", "XmiLoadProofs4.vo", "CorrC05.vo",
                "JsonDoc.vo", "Json.vo", "JsonProofs.vo", "JsonProofs2.vo", "JsonLoadProofs.vo", "JsonLex.vo", "PropsJson.vo",
                "JsonViewOmit.vo", "JsonViewOmitProofs.vo",
                "Props/C05.vo"]
 PROPS_FILE = "Props/C05.v"
 CORR_IMPORTS = "Base Heap Schema Canon XmiDoc XmiLoad CorrC05"
+CASE_TYPE = "lcase"                  # a CorrC05.case + the value of lenient= (CorrC17 keeps using the plain case)
+CHECK_FN = "check_lcase"
+PREMISES_FN = "premises_lcase"
 ENTRY = "cassis.xmi.load_cas_from_xmi / CasXmiDeserializer.deserialize"
 CASES_PER_SHARD = 40
 SHARD_BYTES = 160_000
@@ -38,7 +46,12 @@ RULE = (
     "-Infinity, a sofa with sofaURI, a sofa whose sofaArray names a ByteArray element, no _InitialView sofa); per base "
     "document the identity variant and 2-4 (quick) / 6-8 (thorough) variants drawn from: random element permutation, "
     "reversal, sofas and views first or last, fresh prefixes, shuffled attributes, pretty, empty views omitted, "
-    "open-close tags, Java float spellings, null references as id 0 or absent. Non-trivial: the variant changes the "
+    "open-close tags, Java float spellings, null references as id 0 or absent, empty views written as a View element "
+    "without a members attribute or with a blank one (also for sofas that had no View element). Lenient family: every "
+    "fourth generated scenario and two hand-written documents once more with 1-3 elements of undefined types added "
+    "(random attributes, 0-3 nested child elements named like string-collection features of the known types, "
+    "optionally listed as view members, xmi:id sometimes absent or empty), loaded with lenient=True in base order "
+    "(foreign elements last) and in 2-3 permutations. Non-trivial: the variant changes the "
     "element order or the content spelling of a document with at least one reference or collection feature."
 )
 TRUSTED = [
@@ -62,6 +75,9 @@ ASSUMPTIONS = [
     "(without one the pre-created view gets the next free xmi:id and sofaNum)",
     "feature structures not reachable from any view member are compared with the model only through what references them "
     "(scen.canon observes from the view members)",
+    "lenient cases: premises of C05_load_lenient_total (the document without the elements of undefined types satisfies the "
+    "premises above; the xmi:id of a skipped element is absent, empty or a number; no kept element refers to a skipped one; "
+    "ids of skipped elements are not ids of kept ones)",
 ]
 
 FIX = os.path.join(os.environ.get("VERIF_REPO", "/repo"), "tests", "test_files")
@@ -168,8 +184,99 @@ def used_names(schema, doc):
 # ------------------------------------------------------------------------------------------------ base documents
 
 
+FOREIGN_NS = ["http:///foreign/pkg.ecore", "http:///other.ecore", "http:///uima/noNamespace.ecore", "http:///uima/tcas.ecore"]
+FOREIGN_TAGS = ["Unknown", "Ext", "Zq9", "Note"]
+
+
+def gen_foreign(r, schema, doc, n):
+    """n elements of types the schema does not define, for the document doc: [{"elem", "view": sofa id | None}]."""
+    ids = []
+    for e in doc["elems"]:
+        try:
+            ids.append(int(xmlabs.attr(e, "xmi:id", "")))
+        except ValueError:
+            pass
+    sofa_ids = [xmlabs.attr(e, "xmi:id") for e in doc["elems"] if xmlabs.kind(e) == "Sofa"]
+    view_sofas = [xmlabs.attr(e, "sofa") for e in doc["elems"] if xmlabs.kind(e) == "View"]
+    strcoll, anyfeat = [], []
+    for e in doc["elems"]:
+        ti = schema.get(type_of_elem(e)) if xmlabs.kind(e) == "FS" else None
+        for fd in (ti["feats"] if ti else []):
+            if fd[1] not in RESERVED_XML:
+                (strcoll if fd[2] in (T + "StringArray", T + "StringList") else anyfeat).append(fd[1])
+    pool = strcoll * 3 + anyfeat + ["elements", "tags", "item"]
+    nxt = max(ids + [0]) + 1
+    out = []
+    for _ in range(n):
+        while True:
+            ns, tag = r.choice(FOREIGN_NS), r.choice(FOREIGN_TAGS) + r.choice(["", "", "2", "X"])
+            if type_of_elem({"ns": ns, "tag": tag}) not in schema:
+                break
+        attrs, view = [], None
+        p = r.random()
+        if p < 0.88:
+            if r.random() < 0.3:
+                nxt += r.randrange(1, 40)
+            attrs.append(["xmi:id", str(nxt)])
+            if view_sofas and r.random() < 0.5:
+                view = r.choice(view_sofas)
+            nxt += 1
+        elif p < 0.94:
+            attrs.append(["xmi:id", ""])
+        if sofa_ids and r.random() < 0.6:
+            attrs.append(["sofa", r.choice(sofa_ids)])
+            attrs.extend([["begin", str(r.randrange(3))], ["end", str(r.randrange(3, 6))]])
+        names = [a[0] for a in attrs]
+        for _k in range(r.randrange(3)):
+            nm = r.choice(pool)
+            if nm not in names:
+                names.append(nm)
+                attrs.append([nm, r.choice(["x y", "7", "", "true", "1.5"])])
+        kids = []
+        for _k in range(r.choice([0, 1, 1, 2, 2, 3])):
+            kids.append([r.choice(pool), r.choice(["blue", "", "a b", "1", "x<&>"])])
+        r.shuffle(attrs)
+        out.append({"elem": _el(ns, tag, attrs, kids), "view": view})
+    return out
+
+
+RESERVED_XML = ("xmi:id",)
+
+
+def with_foreign(schema, doc, spec):
+    """The base document of a lenient source: the foreign elements after everything else, their ids in the member lists."""
+    if "elems" in spec:
+        items = spec["elems"]
+    else:
+        items = gen_foreign(random.Random(spec["seed"]), schema, doc, spec["n"])
+    add = {}
+    for it in items:
+        i = xmlabs.attr(it["elem"], "xmi:id")
+        if it.get("view") is not None and i:
+            add.setdefault(str(it["view"]), []).append(i)
+    elems = []
+    for e in doc["elems"]:
+        if xmlabs.kind(e) == "View" and xmlabs.attr(e, "sofa") in add:
+            extra = add.pop(xmlabs.attr(e, "sofa"))
+            r = random.Random(len(extra) * 7919 + len(elems))
+            ms = (xmlabs.attr(e, "members") or "").split()
+            for i in extra:
+                ms.insert(r.randrange(len(ms) + 1), i)
+            attrs = [list(a) for a in e["attrs"] if a[0] != "members"] + [["members", " ".join(ms)]]
+            e = {"ns": e["ns"], "tag": e["tag"], "attrs": attrs, "kids": e["kids"]}
+        elems.append(e)
+    return {"root": doc.get("root"), "elems": elems + [it["elem"] for it in items]}
+
+
 def base_of(cassis, src):
     """-> (type system object, schema dict, abstract document)."""
+    ts, schema, doc = _base_of(cassis, src)
+    if src.get("foreign"):
+        doc = with_foreign(schema, doc, src["foreign"])
+    return ts, schema, doc
+
+
+def _base_of(cassis, src):
     if src["kind"] == "scen":
         ts = scen.build_ts(cassis, src["tspec"])
         cas, _views, _objs = scen.build_cas(cassis, ts, src["cspec"])
@@ -210,7 +317,13 @@ def apply_content(schema, doc, var, r):
     """Content rewrites the format allows; returns a new document."""
     elems = []
     has_null = any(xmlabs.kind(e) == "NULL" for e in doc["elems"])
+    ev = var.get("empty_views")
     for e in doc["elems"]:
+        if ev and xmlabs.kind(e) == "View" and not (xmlabs.attr(e, "members") or "").split():
+            attrs = [list(a) for a in e["attrs"] if a[0] != "members"]
+            if ev != "absent":
+                attrs.append(["members", "" if ev == "blank" else " "])
+            e = {"ns": e["ns"], "tag": e["tag"], "attrs": attrs, "kids": e["kids"]}
         if xmlabs.kind(e) != "FS":
             elems.append(e)
             continue
@@ -249,6 +362,14 @@ def apply_content(schema, doc, var, r):
                     attrs2.append(a)
                 attrs = attrs2
         elems.append({"ns": e["ns"], "tag": e["tag"], "attrs": attrs, "kids": e["kids"]})
+    if ev:      # a sofa that had no View element gets one, in the chosen spelling
+        have = {xmlabs.attr(e, "sofa") for e in elems if xmlabs.kind(e) == "View"}
+        for e in doc["elems"]:
+            if xmlabs.kind(e) == "Sofa" and xmlabs.attr(e, "xmi:id") not in have:
+                attrs = [["sofa", xmlabs.attr(e, "xmi:id")]]
+                if ev != "absent":
+                    attrs.append(["members", "" if ev == "blank" else " "])
+                elems.append({"ns": NS_CAS, "tag": "View", "attrs": attrs, "kids": []})
     return {"root": doc.get("root"), "elems": elems}
 
 
@@ -284,7 +405,8 @@ def variant_doc(schema, doc, var):
     d3 = {"root": d2.get("root"), "elems": [d2["elems"][i] for i in idx]}
     data = xmlabs.write(d3, order=None, prefixes=var.get("prefixes", "uima"),
                         shuffle_attrs=random.Random(var["seed"] + 1) if var.get("shuffle_attrs") else None,
-                        pretty=bool(var.get("pretty")), omit_empty_views=bool(var.get("omit_empty_views")),
+                        pretty=bool(var.get("pretty")),
+                        omit_empty_views=bool(var.get("omit_empty_views")) and not var.get("empty_views"),
                         self_close=var.get("self_close", True))
     return xmlabs.parse(data), data
 
@@ -362,9 +484,21 @@ def _coll(rng, attr, kids):
     return [_tok(_ELEM[rng], t) for t in attr.split()]
 
 
-def py_denote(schema, doc):
-    """What the document says under the UIMA XMI rules, in the format of scen.canon (all feature structures)."""
+def py_denote(schema, doc, lenient=False):
+    """What the document says under the UIMA XMI rules, in the format of scen.canon (all feature structures).  A lenient
+    reader is told nothing by the elements of types it does not know: neither they nor their ids in member lists count."""
     sofas, views, fs = {}, {}, {}
+    skipped = set()
+    if lenient:
+        keep = []
+        for e in doc["elems"]:
+            if xmlabs.kind(e) == "FS" and type_of_elem(e) not in schema:
+                i = xmlabs.attr(e, "xmi:id")
+                if i:
+                    skipped.add(int(i))
+            else:
+                keep.append(e)
+        doc = {"root": doc.get("root"), "elems": keep}
     for e in doc["elems"]:
         a = dict(e["attrs"])
         k = xmlabs.kind(e)
@@ -375,7 +509,7 @@ def py_denote(schema, doc):
                                        "uri": a.get("sofaURI"), "arr": None if a.get("sofaArray") is None else int(a["sofaArray"]),
                                        "members": [], "_s": st}
         elif k == "View":
-            views.setdefault(int(a["sofa"]), []).extend(int(t) for t in a.get("members", "").split())
+            views.setdefault(int(a["sofa"]), []).extend(int(t) for t in a.get("members", "").split() if int(t) not in skipped)
     for e in doc["elems"]:
         if xmlabs.kind(e) != "FS":
             continue
@@ -470,9 +604,13 @@ def run_impl(cassis, sc):
             return {"error": None}
         except Exception as e:  # noqa: the kind is the observation
             return {"error": type(e).__name__}
-    loaded = cassis.load_cas_from_xmi(BytesIO(vbytes), typesystem=ts)
+    lenient = bool(sc.get("lenient"))
+    base_loaded = cassis.load_cas_from_xmi(BytesIO(base_bytes), typesystem=ts, lenient=lenient)
+    try:
+        loaded = cassis.load_cas_from_xmi(BytesIO(vbytes), typesystem=ts, lenient=lenient)
+    except Exception as e:  # noqa: the base presentation loads, this one does not
+        return {"load_error": "%s: %s" % (type(e).__name__, e), "bytes": vbytes.decode("utf-8")[:1500]}
     obs = scen.canon(loaded, "xmi")
-    base_loaded = cassis.load_cas_from_xmi(BytesIO(base_bytes), typesystem=ts)
     names = used_names(schema, vdoc)
     return {"canon": obs, "base": scen.canon(base_loaded, "xmi"), "doc": vdoc, "flts": float_table(schema, vdoc),
             "schema": {n: {"anc": schema[n]["anc"], "feats": [list(f) for f in schema[n]["feats"]]} for n in names}}
@@ -488,11 +626,13 @@ def oracle(cassis, sc, obs):
         if obs["error"] != sc["src"]["expect"]:
             return "a document with an element of an undefined type was not refused with %s: %s" % (sc["src"]["expect"], obs["error"])
         return None
+    if "load_error" in obs:
+        return "a presentation variant of a document that loads cannot be loaded (%s): %s" % (obs["load_error"], obs["bytes"][:900])
     a, b = _norm(obs["canon"]), _norm(obs["base"])
     # (1) what the variant document says, read independently (closed documents only: every fixture but one)
     schema = {n: {"anc": v["anc"], "feats": [tuple(f) for f in v["feats"]]} for n, v in obs["schema"].items()}
     try:
-        den = py_denote(schema, obs["doc"])
+        den = py_denote(schema, obs["doc"], bool(sc.get("lenient")))
     except (KeyError, ValueError) as e:  # not a document the rules give a meaning to
         den = None
     if den is not None and not (set(den["fs"]) & {x["id"] for x in den["sofas"]}):
@@ -519,17 +659,17 @@ def oracle(cassis, sc, obs):
 
 
 def render(sc, obs):
-    if "error" in obs:          # refused documents are compared with the model in C17
+    if "error" in obs or "load_error" in obs:          # refused documents are compared with the model in C17
         return None
     schema = {n: {"anc": v["anc"], "feats": [tuple(f) for f in v["feats"]]} for n, v in obs["schema"].items()}
     flts = glist(["(%s, %s)" % (gstr(k), gstr(v)) for k, v in sorted(obs["flts"].items())])
-    return "mkCase\n %s\n %s\n %s\n (%s)" % (scen.g_schema(schema), xmlabs.g_xdoc(obs["doc"]), flts,
-                                            scen.g_ccas(obs["canon"]))
+    return "mkLCase %s (mkCase\n %s\n %s\n %s\n (%s))" % ("true" if sc.get("lenient") else "false", scen.g_schema(schema),
+                                                         xmlabs.g_xdoc(obs["doc"]), flts, scen.g_ccas(obs["canon"]))
 
 
 def nontrivial(sc):
     v = sc["var"]
-    return bool(v.get("order") or v.get("floats") or v.get("nullrefs"))
+    return bool(v.get("order") or v.get("floats") or v.get("nullrefs") or v.get("empty_views"))
 
 
 def _variants(r, n, with_content=True):
@@ -542,7 +682,20 @@ def _variants(r, n, with_content=True):
         if with_content:
             v["floats"] = r.random() < 0.5
             v["nullrefs"] = r.choice([None, "zero", "absent"])
+        # fourth wave: how an empty view is spelled; drawn from a stream of its own so that every other choice stays as it was
+        r2 = random.Random(v["seed"] ^ 0x4E57)
+        if r2.random() < 0.4:
+            v["empty_views"] = r2.choice(["absent", "absent", "blank", "space"])
         out.append(v)
+    return out
+
+
+def _lenient_variants(r, n):
+    out = [{"seed": r.randrange(1 << 30)}]
+    for _ in range(n):
+        out.append({"seed": r.randrange(1 << 30), "order": r.choice(["shuffle", "shuffle", "shuffle", "reverse", "sofa_first", "sofa_last"]),
+                    "prefixes": r.choice(["uima", "fresh"]), "shuffle_attrs": r.random() < 0.5, "pretty": r.random() < 0.4,
+                    "self_close": r.random() < 0.6})
     return out
 
 
@@ -598,7 +751,41 @@ def hand_sources():
     out.append({"kind": "hand", "tspec": tspec, "expect": "TypeNotFoundError",
                 "doc": [null, sofa1, _el("http:///uima/noNamespace.ecore", "F", [["xmi:id", "7"]]),
                         _el(NS_CAS, "View", [["sofa", "1"], ["members", "7"]])]})
+    # fourth wave: an empty view as a foreign writer may spell it - a View element that has a sofa but no members attribute
+    two = [null, _el("http:///uima/tcas.ecore", "Annotation", [["xmi:id", "5"], ["sofa", "1"], ["begin", "0"], ["end", "4"]]), sofa1,
+           _el(NS_CAS, "Sofa", [["xmi:id", "2"], ["sofaNum", "2"], ["sofaID", "second"], ["mimeType", "text/plain"],
+                                ["sofaString", "other text"]]),
+           _el(NS_CAS, "View", [["sofa", "1"], ["members", "5"]])]
+    out.append({"kind": "hand", "tspec": tspec, "doc": two + [_el(NS_CAS, "View", [["sofa", "2"]])]})
+    out.append({"kind": "hand", "tspec": tspec, "doc": [_el(NS_CAS, "View", [["sofa", "2"]])] + two[:1] + two[2:4]
+                + [_el(NS_CAS, "View", [["sofa", "1"]])]})
     return out
+
+
+def lenient_hand_sources():
+    """Documents of a writer with a richer type system, to be loaded with lenient=True."""
+    tspec = [{"name": "h.N", "super": scen.ANNOTATION, "feats": [
+        {"name": "tags", "range": T + "StringArray", "elem": None, "multi": None},
+        {"name": "labels", "range": T + "StringList", "elem": None, "multi": None},
+        {"name": "next", "range": "h.N", "elem": None, "multi": None}]},
+        {"name": "h.P", "super": scen.TOP, "feats": [{"name": "tags", "range": T + "StringArray", "elem": None, "multi": None}]}]
+    hns = "http:///h.ecore"
+    null = _el(NS_CAS, "NULL", [["xmi:id", "0"]])
+    sofa1 = _el(NS_CAS, "Sofa", [["xmi:id", "1"], ["sofaNum", "1"], ["sofaID", "_InitialView"], ["mimeType", "text/plain"],
+                                 ["sofaString", "some text"]])
+    doc = [null,
+           _el(hns, "N", [["xmi:id", "5"], ["sofa", "1"], ["begin", "0"], ["end", "4"], ["next", "6"]], [["tags", "red"], ["tags", "green"]]),
+           _el(hns, "N", [["xmi:id", "6"], ["sofa", "1"], ["begin", "5"], ["end", "9"]], [["labels", "l1"]]),
+           _el(hns, "P", [["xmi:id", "8"]]),
+           _el(NS_CAS, "StringArray", [["xmi:id", "9"]], [["elements", "e1"]]),
+           sofa1, _el(NS_CAS, "View", [["sofa", "1"], ["members", "5 6 8"]])]
+    f1 = [{"elem": _el("http:///other.ecore", "Unknown", [["xmi:id", "7"], ["sofa", "1"], ["begin", "0"], ["end", "2"]],
+                       [["tags", "blue"]]), "view": "1"}]
+    f2 = [{"elem": _el("http:///uima/noNamespace.ecore", "N", [["tags", ""], ["xmi:id", "17"]],
+                       [["labels", "x"], ["elements", "y"], ["bogus", ""]]), "view": None},
+          {"elem": _el(hns, "Q", [["next", "5"]], [["tags", "t"], ["tags", "u"]]), "view": None}]
+    return [{"kind": "hand", "tspec": tspec, "doc": doc, "foreign": {"elems": f1}},
+            {"kind": "hand", "tspec": tspec, "doc": doc, "foreign": {"elems": f2}}]
 
 
 def generate(rng, tier):
@@ -607,11 +794,13 @@ def generate(rng, tier):
     _CACHE["cassis"] = cassis
     n_scen = {"quick": 48, "thorough": 260, "search": 300}[tier]
     n_var = {"quick": (1, 2), "thorough": (4, 6), "search": (3, 5)}[tier]
+    scen_sources = []
     for k in range(n_scen):
         r = random.Random(rng.randrange(1 << 30))
         tspec = scen.gen_tspec(r, n_types=r.choice([3, 5, 8]), max_feats=r.choice([3, 5]))
         cspec = scen.gen_cspec(r, cassis, tspec, n_objs=(1, 5 if tier == "quick" else 10))
         src = {"kind": "scen", "tspec": tspec, "cspec": cspec}
+        scen_sources.append(src)
         for v in _variants(r, r.randint(*n_var)):
             yield {"src": src, "var": v}
     for xmi, ts in FIXTURES:
@@ -624,6 +813,16 @@ def generate(rng, tier):
         r = random.Random(rng.randrange(1 << 30))
         for v in _variants(r, 1 if tier == "quick" else 4, with_content=False):
             yield {"src": src, "var": v}
+    # fourth wave: the lenient family (a stream of its own, drawn after everything else)
+    rl = random.Random(rng.randrange(1 << 30))
+    n_lv = 2 if tier == "quick" else 4
+    for src in lenient_hand_sources():
+        for v in _lenient_variants(rl, n_lv):
+            yield {"src": src, "var": v, "lenient": True}
+    for src in scen_sources[::4]:
+        src = dict(src, foreign={"seed": rl.randrange(1 << 30), "n": rl.choice([1, 1, 2, 3])})
+        for v in _lenient_variants(rl, n_lv):
+            yield {"src": src, "var": v, "lenient": True}
 
 
 def _drop_obj(cspec, lab):
@@ -661,6 +860,16 @@ def shrink_candidates(sc):
         c = json.loads(json.dumps(sc))
         c["var"]["self_close"] = True
         yield c
+    f = sc["src"].get("foreign")
+    if f and f.get("n", 0) > 1:
+        c = json.loads(json.dumps(sc))
+        c["src"]["foreign"]["n"] = f["n"] - 1
+        yield c
+    if f and len(f.get("elems", [])) > 1:
+        for i in range(len(f["elems"])):
+            c = json.loads(json.dumps(sc))
+            del c["src"]["foreign"]["elems"][i]
+            yield c
     if sc["src"]["kind"] == "scen":
         for o in reversed(sc["src"]["cspec"]["objs"]):
             c2 = _drop_obj(sc["src"]["cspec"], o["o"])
@@ -669,15 +878,18 @@ def shrink_candidates(sc):
                 c["src"]["cspec"] = c2
                 yield c
     if sc["src"]["kind"] == "hand":
-        for i, e in enumerate(sc["src"]["doc"]):
-            if xmlabs.kind(e) == "FS":
+        doc = sc["src"]["doc"]
+        for i, e in enumerate(doc):
+            ident = xmlabs.attr(e, "xmi:id")
+            named = any(ident in v.split() for j, o in enumerate(doc) if j != i for k, v in o["attrs"] if k != "xmi:id")
+            if xmlabs.kind(e) == "FS" and not named:          # the document must stay closed
                 c = json.loads(json.dumps(sc))
                 del c["src"]["doc"][i]
                 yield c
 
 
 def signature(sc, msg):
-    return {"what": (msg or "").split(":")[0][:60], "src": sc["src"]["kind"]}
+    return {"what": (msg or "").split(":")[0].split("(")[0][:60], "src": sc["src"]["kind"]}
 
 
 def distribution(scenarios, observations):
@@ -692,6 +904,11 @@ def distribution(scenarios, observations):
     observations = [o for o in observations if o and "doc" in o]
     n_el = [len(o["doc"]["elems"]) for o in observations if o]
     return {"cases": len(scenarios), "by_source": kinds, "knobs": knobs, "max_elements": max(n_el or [0]),
+            "lenient": sum(1 for s in scenarios if s.get("lenient")),
+            "memberless_view_elements": sum(1 for o in observations for e in o["doc"]["elems"]
+                                            if xmlabs.kind(e) == "View" and xmlabs.attr(e, "members") is None),
+            "foreign_elements_with_children": sum(1 for o in observations for e in o["doc"]["elems"]
+                                                  if xmlabs.kind(e) == "FS" and e["kids"] and type_of_elem(e) not in o["schema"]),
             "float_literals": sum(len(o["flts"]) for o in observations if o),
             "fixtures": sorted({s["src"]["xmi"] for s in scenarios if s["src"]["kind"] == "fixture"})}
 
